@@ -1,0 +1,13 @@
+//go:build verif
+
+package statecache
+
+// VerifYield is set by the verification harness (build tag verif) to take control of scheduling
+// right before each access to the maps shared between StateCache.Get and StateCache.commit.
+var VerifYield func(point string)
+
+func verifYield(point string) {
+	if f := VerifYield; f != nil {
+		f(point)
+	}
+}
